@@ -48,7 +48,8 @@ let b01 s = s = "1"
 (* a name as it is spelled in an attribute value: "x<hex>" = the bytes, escaped the usual way
    (Merge.esc_sp); "p" + pieces joined by '+': L<hex> literal bytes, N<cp> predefined entity,
    D<cp>.<w> decimal / H<cp>.<w> lower-case hex / U<cp>.<w> upper-case hex character reference
-   with w digits.  The declared name is Merge.sp_value of the spelling. *)
+   with w digits.  The declared table name is Merge.sp_value of the spelling; the declared column
+   name is Merge.col_value of it (the ST_Xstring layer _xHHHH_ on top of the XML layer). *)
 let parse_piece (t : string) : piece =
   let body = String.sub t 1 (String.length t - 1) in
   let cpw () = match String.split_on_char '.' body with
@@ -177,7 +178,7 @@ let parse_xlsx (desc : string) : xcase =
       let extra = parse_attrs (next ()) in let cextra = parse_attrs (next ()) in
       let pfx = opt_xs (next ()) in let pre = parse_events (next ()) in
       let cols_sp = (let t = next () in if t = "-" then [] else List.map parse_spelling (String.split_on_char ',' t)) in
-      let tl = { tl_name = sp_value name_sp; tl_cols = List.map sp_value cols_sp; tl_ref = ((r0, c0), (r1, c1));
+      let tl = { tl_name = sp_value name_sp; tl_cols = List.map col_value cols_sp; tl_ref = ((r0, c0), (r1, c1));
                  tl_header = hdr; tl_totals = tot; tl_insert = insrow } in
       let tc = { tc_part = part; tc_rid = rid; tc_target = target; tc_type = typ; tc_target_first = tfirst;
                  tc_ref_style = rstyle; tc_ref_lower = rlower; tc_hdr_explicit = hexp; tc_tot_explicit = texp;
